@@ -77,6 +77,11 @@ CHECKS = {
             "Generated-input search comparing every gradient component with a derivative of an independently implemented objective; no test in the suite compares a gradient with a derivative.",
             "Trusted: vlib/refmodel.py NLL; finite differences accurate to ~1e-8 relative, tolerance 2e-6 (2e-5 at breakpoints); code1 at exactly alpha=0 is a recorded known finding (excluded by construction, 3 stored replays).",
             "DESIGN.md#c13"),
+    "C05": ("exploration",
+            "Hypothesis-generated closed-form families and well-posed general models x data x init/bounds/fixed masks x {fit, fixed_poi_fit} x optimizer x backend with every do_stitch/do_grad combination run per case; oracles: feasibility, exact fixed values, reported objective == 2*reference NLL, one-sided optimality vs closed form / sampled feasible points, configuration independence",
+            "Generated-input search with an independent objective and independent optima (closed forms); optimality is refutable only ('any other feasible point' is sampled).",
+            "Trusted: vlib/refmodel.py NLL, vlib/refstats.py closed forms; tol_opt 2e-4 (scipy) / 2e-3 (minuit) on 2NLL; two recorded known findings (stitching with every parameter fixed; one SLSQP false-convergence input).",
+            "DESIGN.md#c05"),
 }
 
 NOT_YET = "check not built yet in this session (work in progress; the design in DESIGN.md section 5 applies)"
